@@ -178,6 +178,10 @@ func (rr *SIG) Verify(k *KEY, buf []byte) error {
 		r := new(big.Int).SetBytes(sig[:len(sig)/2])
 		s := new(big.Int).SetBytes(sig[len(sig)/2:])
 		if pk != nil {
+			// RFC 6605, Section 4: r | s, each of exactly the curve's size.
+			if len(sig) != 2*((pk.Curve.Params().BitSize+7)/8) {
+				return ErrSig
+			}
 			if ecdsa.Verify(pk, hashed, r, s) {
 				return nil
 			}
